@@ -281,7 +281,7 @@ func runC06(e *Engine, r *Report, tier string) {
 				ck := e.FnKey(cs.Caller) + " -> " + chain
 				var w32 ssa.Instruction
 				allCalls(cs.Caller, func(c ssa.CallInstruction) {
-					if !Dominates(c, cs.Call) {
+					if !DominatesF(c, cs.Call) {
 						return
 					}
 					if e.callDirectOp(c, cc, "32", "set") {
